@@ -12,6 +12,13 @@ var (
 	k6f  = bs("f")
 )
 
+// c06Faulted: visits after a file call failed (C07 driver, visit oracle only).
+func c06Faulted() Profile {
+	return Profile{Name: "visits-after-faults", Exec: OnlySigs(c07Exec(1, 1, false), "visit"),
+		Budget: map[int]int{1: 0, 2: 0, 3: 1}, ShardLevel: 3,
+		Rule: "range visits after a failed file call: the C07 driver (6 initial stores x every single operation x one failing file call at every index, retried or not) followed by Set, Flush, the full read battery (ascending / descending visits with and without values, iterators), Reopen and the battery again; visit oracle only: every visit delivers exactly the model's range in order with the right values"}
+}
+
 func c06Profiles(tier string) []Profile {
 	prios := []int32{1, 2}
 	depth := 3
@@ -106,7 +113,7 @@ func c06Profiles(tier string) []Profile {
 	for _, c := range cmps {
 		ps = append(ps, mk(c).Profile(fmt.Sprintf("comparator %s: contents = every Set sequence of length <= %d over keys {b, dd+68 non-periodic bytes, f} x priorities %v (every subset, insertion order, priority order incl. ties and overwrites) x cache state in {dirty, flushed, flushed+evicted (every random path), reopened, reopened+GetItem with value of each key, reopened+partial key-only visit} x API in {Ascend, Descend, AscendEx, DescendEx, IterateAscend, IterateDescend} x target in {nil, \"\", a, b, c, d, the long key, the long key+x, e, f, g} x withValue x visitor stop position in {never, 0..n}; oracle: delivered sequence = model range under that comparator truncated at the stop, key/priority/value exact, Ex depth = true depth from the side-effect-free walk", c, depth, prios)))
 	}
-	return ps
+	return append(ps, c06Faulted())
 }
 
 func init() {
